@@ -177,18 +177,66 @@ def exact_problem(shape, rank, seed, scale, dtype, loose):
     return t, ((weights.astype(dtype) if weights is not None else None), S)
 
 
+def requested_on(n, items, m):
+    """(kind, python value) the user's specification puts on mode m (first keyword that reaches it) -- used only
+    to BUILD a start that is meant to be feasible; whether it is, is judged by the spec on the measured start."""
+    for it in items:
+        if it["form"] == "scalar":
+            return it["kind"], pyvalue(it["kind"], it["pars"][0])
+        for k, p in zip(it["modes"], it["pars"]):
+            if k % n == m:
+                return it["kind"], pyvalue(it["kind"], p)
+    return None, None
+
+
+def feasible_start(n, items, shape, rank, seed, dtype):
+    rng = np.random.RandomState((seed + 41) % (2**31))
+    factors = []
+    for m, d in enumerate(shape):
+        kind, par = requested_on(n, items, m)
+        F = rng.randn(d, rank)
+        if kind in ("non_negative", None) or kind in PENALTY:
+            F = np.abs(F) + 0.05
+        elif kind == "simplex":
+            F = np.abs(F) + 0.05
+            F = F / F.sum(axis=0) * par
+        elif kind == "soft_sparsity":
+            F = F / np.abs(F).sum(axis=0) * (0.75 * par)
+        elif kind == "normalize":
+            F = F / np.abs(F).max()
+        elif kind in ("hard_sparsity", "normalized_sparsity"):
+            keep = np.argsort(-np.abs(F).ravel())[: max(1, int(par))]
+            G = np.zeros(F.size)
+            G[keep] = F.ravel()[keep]
+            F = G.reshape(F.shape)
+            if kind == "normalized_sparsity":
+                F = F / np.sqrt((F * F).sum())
+        elif kind in ("monotonicity", "unimodality"):
+            F = np.sort(F, axis=0)
+        factors.append(F.astype(dtype))
+    w = rng.uniform(0.5, 3.0, size=rank)
+    if rng.rand() < 0.5:
+        w = w * rng.choice([-1.0, 1.0], size=rank)
+    return (w.astype(dtype), factors)
+
+
 def exec_run(case):
     from tensorly.decomposition import constrained_parafac, ConstrainedCP
     n, items, r = case["n"], case["items"], case["run"]
     t = run_tensor(tuple(r["shape"]), r["data"], case["seed"], r["scale"], r["dtype"])
     np.random.seed(case["seed"] % (2**31))
-    ev = {"id": case["id"], "op": "run", "n": n, "items": items, "run": r, "raised": False, "exc": "", "factors": []}
+    ev = {"id": case["id"], "op": "run", "n": n, "items": items, "run": r, "raised": False, "exc": "", "factors": [], "start": []}
     init = r["init"]
-    if init == "user":      # entrywise non-negative user start (weights None = ones)
+    if init == "feasible":
+        init = feasible_start(n, items, tuple(r["shape"]), r["rank"], case["seed"], r["dtype"])
+    elif init == "user":      # entrywise non-negative user start (weights None = ones)
         urng = np.random.RandomState((case["seed"] + 17) % (2**31))
         init = (None, [(np.abs(urng.randn(d, r["rank"])) + 0.05).astype(r["dtype"]) for d in r["shape"]])
     elif init == "exact":
         t, init = exact_problem(tuple(r["shape"]), r["rank"], case["seed"], r["scale"], r["dtype"], r["tol"] == "loose")
+    if not isinstance(init, str):       # the caller's start, measured BEFORE the call (copies: C15 is not our business)
+        ev["start"] = [measure(f) for f in init[1]]
+        init = (None if init[0] is None else init[0].copy(), [f.copy() for f in init[1]])
     opts = dict(n_iter_max=r["outer"], n_iter_max_inner=r["inner"], init=init, random_state=case["seed"] % (2**31),
                 fixed_modes=list(r["fixed"]) if r["fixed"] else None, **kwargs_of(n, items))
     if r["tol"] == "loose":
@@ -239,24 +287,8 @@ def shifted(items, d):
 
 # ----------------------------------------------------------------------------- descriptors
 def describe(items, n, run=None):
-    """Descriptor-level facts about the user's specification (for findings matching only)."""
-    forms = [it["form"] for it in items]
-    has_list = "list" in forms
-    gaps = any(it["form"] == "list" and len(it["modes"]) < n for it in items)
-    neg = any(it["form"] == "dict" and any(m < 0 for m in it["modes"]) for it in items)
-    return {"kinds": [it["kind"] for it in items], "forms": forms, "has_list": has_list,
-            # F-11e: the double-constraint test compares the raw keys, so a clash through a negative key is missed
-            "negative_key_with_second_keyword": bool(neg and len(items) > 1),
-            # F-11f: max-normalisation of an ADMM iterate that is exactly 0 (data tiny against the unit-max factors)
-            "normalize_tiny_data": bool(run and run.get("scale", 0) < 0 and any(it["kind"] == "normalize" for it in items)),
-            # F-11a can only touch a list-valued keyword that has empty entries or comes with a second keyword
-            "list_exposed": bool(has_list and (gaps or len(items) > 1)),
-            # F-11b: the simplex projection turns a one-column factor into a vector
-            "rank1_simplex_prox": bool(run and run["rank"] == 1 and any(it["kind"] in RADIUS for it in items)),
-            # F-11d: unit-norm projection requested on a size-1 mode (ADMM can hit exactly 0 there: 0/0)
-            "size1_normalized_sparsity": bool(run and "shape" in run and any(
-                it["kind"] == "normalized_sparsity" and any(run["shape"][m % n] == 1 for m in (range(n) if it["form"] == "scalar" else it["modes"]))
-                for it in items))}
+    """Descriptor-level facts about the user's specification (readability of replay records only)."""
+    return {"kinds": [it["kind"] for it in items], "forms": [it["form"] for it in items]}
 
 
 def has_hard_request(c):
@@ -264,16 +296,11 @@ def has_hard_request(c):
 
 
 def extra_of(ev, extra):
-    """Context for the replay record / findings matching: the mode TLC named and that factor's summary."""
+    """Context for the replay record: the mode TLC named and that factor's summary."""
     mode = extra[0] if extra else -1
     out = {"mode": mode}
     if ev and ev.get("op") == "run" and isinstance(mode, int) and 0 <= mode < len(ev.get("factors", [])):
-        f = ev["factors"][mode]
-        out["factor"] = {k: v for k, v in f.items() if k != "cols"}
-        # F-12a signature: clip(x, 0, max(x)) with max(x) < 0 returns the constant max(x)
-        out["constant_negative_factor"] = bool(f["const"] and f["cols"] and f["cols"][0]["minsign"] < 0)
-        # F-11c signature: the factor holds entries beyond the quantiser's range (|x| >= 200)
-        out["huge_factor"] = bool(abs(f["maxabs"]) >= SAT)
+        out["factor"] = {k: v for k, v in ev["factors"][mode].items() if k != "cols"}
     return out
 
 
@@ -305,7 +332,7 @@ def run(chk, opts):
                       outer=rng.choice(setof(d["outer"])), inner=rng.choice(setof(d["inner"])), data=rng.choice(setof(d["data"])),
                       fixed=list(rng.choice(setof(d["fixed"]))), via=rng.choice(setof(d["via"])),
                       scale=rng.choice(setof(d["scales"])), dtype=rng.choice(setof(d["dtypes"])), tol=rng.choice(setof(d["tols"])))
-            if (rc["dtype"] == "float32" and rc["scale"] not in (0, -30)) or (rc["outer"] == 0 and rc["init"] in ("user", "exact")):
+            if rc["dtype"] == "float32" and rc["scale"] not in (0, -30):
                 continue
             return rc
     accepted = [c for c in specs if not c["rej"] and has_hard_request(c)]
@@ -338,6 +365,22 @@ def run(chk, opts):
         if not progressed:
             break
     for k, (c, rc) in enumerate(picked):
+        d = {"id": "C11/run/%06d" % k, "op": "run", "n": c["n"], "items": c["items"], "run": rc,
+             "seed": (chk.seed * 1000003 + k * 7919 + 11) % (2**31)}
+        d.update(describe(c["items"], c["n"], rc))
+        cases.append(d)
+    # must-reject specifications through the decomposition itself: every start kind x outer budget {0, 1}
+    nrejruns = int(opts.get("rejruns", 0)) or (12000 if thorough else 1500)
+    rej_all = [c for c in specs if c["rej"]]
+    rstrata = {}
+    for c in rej_all:
+        rstrata.setdefault((c["n"], tuple(it["form"] for it in c["items"])), []).append(c)
+    rkeys = sorted(rstrata)
+    for j in range(min(nrejruns, len(rej_all))):
+        c = rng.choice(rstrata[rkeys[j % len(rkeys)]])
+        rc = draw_run(c["n"])
+        rc["outer"] = j // len(rkeys) % 2
+        k = len(cases) - nmap
         d = {"id": "C11/run/%06d" % k, "op": "run", "n": c["n"], "items": c["items"], "run": rc,
              "seed": (chk.seed * 1000003 + k * 7919 + 11) % (2**31)}
         d.update(describe(c["items"], c["n"], rc))
@@ -395,7 +438,7 @@ def run(chk, opts):
     chk.rule = ("binding 1: ALL %d specifications exported from TLC's design run of Constraints.tla (<=2 keywords x scalar/list/dict x every "
                 "mode subset, orders 3-4; %d are Reject) through validate_constraints per mode + constrained_parafac(1,1); "
                 "binding 2: %d decomposition runs = every accepted single-keyword hard specification x %d run configurations drawn from "
-                "the spec's run domain (shape x rank x init{svd,random,user,exact-fit infeasible start} x tol_outer{default,1e-2} x outer{1,2,5} x inner{1,10} x data{signed,sparse,allneg} x fixed_modes{every subset of 0..n-2} x via{function,ConstrainedCP}) + %d two-keyword "
+                "the spec's run domain (shape x rank x init{svd,random,user,exact-fit infeasible start,feasible start with non-unit weights} x tol_outer{default,1e-2} x outer{1,2,5} x inner{1,10} x data{signed,sparse,allneg} x fixed_modes{every subset of 0..n-2} x via{function,ConstrainedCP}) + %d two-keyword "
                 "specifications stratified over (kinds, forms); distinct = distinct (specification, run configuration) pairs"
                 "; run domain also x outer 0 x data scale 2^{0,-70,-30,40} x dtype{float64,float32}; + %d proximal_operator events per "
                 "value regime; + %d sequences (%d runs) of 2-3 decompositions with the same keywords/modes and shifted parameters "
@@ -410,7 +453,7 @@ def run(chk, opts):
     for rid, clause, extra in chk.validate("ConstraintsTrace", events):
         chk.violation(rid, clause, event=by_id.get(rid), extra=extra_of(by_id.get(rid), extra))
     chk.exhaustive = False      # the mapping domain is exhaustive, data / budgets are sampled
-    chk.assumptions += ["NumPy backend only", "a fixed mode is obliged only when the start is built-in (svd/random starts are documented to be projected; a user start is returned as supplied, C14)",
+    chk.assumptions += ["NumPy backend only", "a factor of a caller's start that is returned as supplied (fixed mode; zero outer budget, all but the last mode) is obliged to stay feasible if it was supplied feasible; built-in starts are documented to be projected",
                         "inner budget >= 1 (admm(n_iter_max=0) raises before returning)",
                         "a LinAlgError raised by the linear solves carries no obligation (nothing is returned)",
                         "scope-ambiguous kinds (hard/normalised sparsity, max-normalisation, monotone direction): either documented reading accepted"]
